@@ -1453,9 +1453,12 @@ class TransferManager(BaseManager):
                     reason = FailReason.CANCELLED
                 elif current_state == TransferState.COMPLETE:
                     reason = FailReason.COMPLETE
-                elif transfer.is_processing():
+                elif transfer.is_processing() or transfer._state_lock.locked():
                     # Needs investigation, currently don't do anything when the
-                    # transfer is already being processed
+                    # transfer is already being processed. The same goes for a
+                    # transfer in the middle of a state transition (f.e. an
+                    # abort waiting for the local file to be removed): a task
+                    # started now would outlive that transition
                     return
                 else:
                     # All good to download
